@@ -123,6 +123,11 @@ func (t *treeSimple) mkdir(r io.Reader, cfg *config) error {
 	if err := t.grower.grow(roots); err != nil {
 		return err
 	}
+	if cfg.dryrun {
+		// when detected no invalid node name, output tree.
+		return t.spreader.spread(color.Output, roots)
+	}
+	// when detected no invalid node name, no output tree.
 	return t.mkdirer.mkdir(roots)
 }
 
